@@ -82,18 +82,21 @@ def run(ctx: Ctx):
     ctx.check(len(got) == len(ret_names), "IFC-4b", po, unp[0], "unpacks as many values as the solver returns", f"{got} <- {ret_names}", f"solver returns {len(ret_names)} values, {len(got)} are unpacked")
     pos = {g: i for i, g in enumerate(got)}
 
-    def origin(name, seen=()):
-        """position of the solver's return that `name` (as finally bound in plan_on) wraps; table constructors are looked through."""
-        ds = _assigns(po, name)
-        if not ds:
-            return pos.get(name), None
-        d = ds[-1]
-        if isinstance(d.value, ast.Call) and ast.unparse(d.value.func) in ("StateTable.from_state_list", "StateActionTable.from_state_action_lists"):
-            dat = kwarg(d.value, "data")
-            if isinstance(dat, ast.Name) and dat.id in pos:
-                return pos[dat.id], d
-            return None, d
-        return pos.get(name), None
+    CTORS = ("StateTable.from_state_list", "StateActionTable.from_state_action_lists")
+
+    def origin(node):
+        """(position of the solver's return that the value of a result field wraps, the table-constructor call, the statement to report at);
+        the table may be bound to a name (its last definition in plan_on is taken) or constructed in place in the return."""
+        d = None
+        if isinstance(node, ast.Name):
+            ds = _assigns(po, node.id)
+            if not ds:
+                return pos.get(node.id), None, None
+            d, node = ds[-1], ds[-1].value
+        if isinstance(node, ast.Call) and ast.unparse(node.func) in CTORS:
+            dat = kwarg(node, "data")
+            return (pos.get(dat.id) if isinstance(dat, ast.Name) else None), node, d
+        return None, None, None
     r = [n for n in pst if isinstance(n, ast.Return) and isinstance(n.value, ast.Call)]
     if r:
         kwn = {k.arg: k.value for k in r[0].value.keywords}
@@ -101,11 +104,11 @@ def run(ctx: Ctx):
         fields = {"state_gain": (0, "StateTable.from_state_list"), "action_gain": (1, "StateActionTable.from_state_action_lists"),
                   "state_value": (2, "StateTable.from_state_list"), "action_value": (3, "StateActionTable.from_state_action_lists")}
         for fld, (ix, ctor) in fields.items():
-            o, d = origin(kw.get(fld, "")) if kw.get(fld, "").isidentifier() else (None, None)
+            o, tc, d = origin(kwn.get(fld))
             ctx.check(o == ix, "IFC-4b", po, r[0], f"result field {fld} carries position {ix} of the solver's return", f"{kw.get(fld)} <- position {o}",
                       f"result field `{fld}` is `{kw.get(fld)}`, which wraps position {o} of the solver's return, not position {ix}: gain and bias (or state and action arrays) are crossed")
-            ok = d is not None and ast.unparse(d.value.func) == ctor and ast.unparse(kwarg(d.value, "state_list")) == f"{mdp}.state_list" \
-                and (ctor == "StateTable.from_state_list" or ast.unparse(kwarg(d.value, "action_list")) == f"{mdp}.action_list")
+            ok = tc is not None and ast.unparse(tc.func) == ctor and pat.m(f"{mdp}.state_list", kwarg(tc, "state_list"), fn=po.node) is not None \
+                and (ctor == "StateTable.from_state_list" or pat.m(f"{mdp}.action_list", kwarg(tc, "action_list"), fn=po.node) is not None)
             ctx.check(ok, "TEN-3", po, d if d is not None else r[0], f"table for {fld} is laid out over the MDP's own state/action lists", "", f"table for `{fld}` is not built over {mdp}.state_list / {mdp}.action_list")
         itn = kw.get("iterations")
         ctx.check(pos.get(itn) == 5, "IFC-4b", po, r[0], "result field iterations carries the solver's loop counter", f"{itn}", f"`iterations` is `{itn}`, not position 5 of the solver's return")
@@ -117,22 +120,27 @@ def run(ctx: Ctx):
         ctx.check(bool(converged_from_counter(cvn, itn, "self.max_iterations")) if cvn is not None and itn else False, "BEL-5", po, r[0], "converged = iterations < max_iterations - 1", kw.get("converged", ""),
                   f"converged is `{kw.get('converged')}`: `iterations` is the 0-based index of the last pass, so this is true even when the iteration budget was exhausted")
         # policy
+        # The rule is stated on the VALUES (the table's data, the conjunction's two operands, the second argument of isclose); whether any of
+        # them is named by a temporary or written in place is free: patterns are matched definition-transparently (fn=po.node).
+        pnode = kwn.get("policy")
         pn = kw.get("policy")
-        pd = _assigns(po, pn)[-1] if pn and pn.isidentifier() and _assigns(po, pn) else None
-        e_ = pat.m(f"{pn} = TabularPolicy.from_state_action_lists(state_list={mdp}.state_list, action_list={mdp}.action_list, data=V_pm)", pd) if pd is not None else None
+        pd = _assigns(po, pn)[-1] if isinstance(pnode, ast.Name) and _assigns(po, pn) else None
+        pval = pd.value if pd is not None else pnode
+        e_ = pat.m(f"TabularPolicy.from_state_action_lists(state_list={mdp}.state_list, action_list={mdp}.action_list, data=V_pm)", pval, fn=po.node)
         ctx.check(e_ is not None, "BEL-4", po, pd if pd is not None else r[0], "policy table laid out over the MDP's state/action lists", "", "policy table is not built over the MDP's lists")
         if e_:
             pm = e_["pm"]
-            c1 = pat.find(po.node, f"{pm} = V_gm & V_bm", nodes=pst)
+            c1 = pat.find(po.node, f"{pm} = E_gm & E_bm", nodes=pst)
             c2 = pat.find(po.node, f"{pm} = {pm} / {pm}.sum(-1, keepdims=True)", nodes=pst)
             ok = bool(c1) and bool(c2) and c1[0][0].lineno < c2[0][0].lineno
             ctx.check(ok, "BEL-4", po, c1[0][0] if c1 else po.node, "policy = normalised (gain maximisers AND bias maximisers)", "", "policy is not the normalised conjunction of gain- and bias-maximising actions")
             if c1:
                 srcs = set()
                 for mv in (c1[0][1]["gm"], c1[0][1]["bm"]):
-                    d = _assigns(po, mv)
-                    e2 = pat.m(f"{mv} = np.isclose(V_x, V_x.max(-1, keepdims=True), REST=ANY)", d[-1]) if d else None
-                    ctx.check(e2 is not None and pos.get(e2["x"]) in (1, 3), "BEL-4", po, d[-1] if d else po.node, "a maximiser set = maximisers over the action axis of an action array of the solver", "", f"maximiser set `{mv}` changed")
+                    # operand of the conjunction: a named maximiser set (its last definition) or the isclose(...) expression itself
+                    d = _assigns(po, mv.id) if isinstance(mv, ast.Name) else []
+                    e2 = pat.m("np.isclose(V_x, V_x.max(-1, keepdims=True), REST=ANY)", d[-1].value if d else mv, fn=po.node)
+                    ctx.check(e2 is not None and pos.get(e2["x"]) in (1, 3), "BEL-4", po, d[-1] if d else c1[0][0], "a maximiser set = maximisers over the action axis of an action array of the solver", "", f"maximiser set `{pat.txt(mv)}` changed")
                     if e2:
                         srcs.add(pos.get(e2["x"]))
                 ctx.check(srcs == {1, 3}, "BEL-4", po, c1[0][0], "one maximiser set is of the action gains, the other of the action values", str(srcs), "the two maximiser sets are not those of action gain and action bias")
